@@ -627,7 +627,14 @@ class FilelockShim:
                     self._count += 1
                     return self
                 if not shim.fs.lock(self._lock_file, self):
-                    raise SimTimeout(self._lock_file)
+                    # somebody else holds it: while we wait (up to `timeout`), that somebody goes on working --
+                    # the check may have registered what it does meanwhile
+                    hook = getattr(shim.fs, "on_lock_contention", None)
+                    if hook is not None:
+                        shim.fs.on_lock_contention = None
+                        hook()
+                    if hook is None or not shim.fs.lock(self._lock_file, self):
+                        raise SimTimeout(self._lock_file)
                 self._epoch = shim.fs.epoch
                 self._count = 1
                 return self
